@@ -70,6 +70,16 @@ var sigRules = []sigRule{
 	rule(`ckks\.Encoder\.Encode/\[\]bigfloat/result:value:out-history:dirty-words`, `ckks.Encoder.Encode/[]bigfloat/coefficient-domain-tail-not-zeroed`),
 	// F15 rlwe.ApplyEvaluationKey
 	rule(`rlwe\.Evaluator\.ApplyEvaluationKey/ct/result:(?:level|value):out-history:larger-level`, `rlwe.Evaluator.ApplyEvaluationKey/ct/larger-level-output-not-resized`),
+	rule(`rlwe\.Evaluator\[large-ring\]\.ApplyEvaluationKey/small->large/result:(?:level|value):out-history:larger-level`, `rlwe.Evaluator.ApplyEvaluationKey/ct/larger-level-output-not-resized`),
+	// F24 rlwe.SwitchCiphertextRingDegree (coefficient domain), small ring -> large ring: coefficients that are not a multiple of the gap keep their old value
+	rule(`(?:rlwe \(functions\)\.SwitchCiphertextRingDegree|rlwe\.Evaluator\[large-ring\]\.ApplyEvaluationKey)/small->large/result:value:out-history:dirty-words`,
+		`rlwe.SwitchCiphertextRingDegree/small->large/stale-coefficients-not-zeroed`),
+	// F25 rlwe.ApplyEvaluationKey between rings of different degree (coefficient domain): output of larger level panics
+	rule(`rlwe\.Evaluator\[large-ring\]\.ApplyEvaluationKey/(?:small->large|large->small)/panic:out-history:larger-level`, `rlwe.Evaluator.ApplyEvaluationKey/ring-switch/larger-level-output-panics`),
+	// F26 rlwe.RingPackingEvaluator.Pack (and Repack / RepackNaive, which call it) consume their input ciphertexts
+	rule(`rlwe\.RingPackingEvaluator\.(?:Pack|Repack|RepackNaive)/cts/input-modified:cts:.*`, `rlwe.RingPackingEvaluator.Pack/cts/input-ciphertexts-consumed`),
+	// F27 rlwe.RingPackingEvaluator.Merge does not resize a larger-level output
+	rule(`rlwe\.RingPackingEvaluator\.Merge/ct/result:(?:level|value):out-history:larger-level`, `rlwe.RingPackingEvaluator.Merge/ct/larger-level-output-not-resized`),
 	// F16, F17 rlwe.InnerFunction
 	rule(`rlwe\.Evaluator\.InnerFunction/ct/result:value:out-history:larger-degree`, `rlwe.Evaluator.InnerFunction/ct/larger-degree-output-keeps-old-component`),
 	rule(`rlwe\.Evaluator\.InnerFunction/ct/result:(?:meta|value):alias:out==ctIn`, `rlwe.Evaluator.InnerFunction/ct/out==ctIn-coefficient-domain-result-left-in-NTT`),
